@@ -367,6 +367,10 @@ func (e *Entry) Verify(identity identityprovider.Interface, io iface.IO) error {
 		}
 	}
 
+	if verifiedEntry == nil {
+		verifiedEntry = e
+	}
+
 	hashable, err := ToHashable(verifiedEntry)
 	if err != nil {
 		return errmsg.ErrEntryNotHashable.Wrap(err)
